@@ -65,6 +65,37 @@ def run(tier, seed):
                               numeric="float", loss_offset=2 ** 30, seed=rng.randrange(2 ** 31)))
     traces2, kept, fails2 = E.validate(ctx, scs, lambda clause, t, c: clause == "efficiency" or clause.split(".")[0] in ("sage", "pfi"),
                                        "float explainer runs with losses 2^30 + delta (exact doubles) validated exactly")
+    # the third tracker: a sliding window on ill-conditioned streams keeps nothing of the values that left it - its mean is
+    # within a small multiple of k*eps*max|v in the window| of the exact mean of the last k values (float-level check; the
+    # window semantics themselves are C11's)
+    from ixai.utils.tracker import SlidingWindowTracker
+    eps = 2.0 ** -52
+    nsw = 0
+    for k in (1, 3, 4, 50):
+        for name, gen in (("spike", lambda i: 1e8 if i % 97 == 5 else 1e-8 * (1 + i % 7)),
+                          ("offset", lambda i: 1e9 + (0.5 if i % 2 else -0.5)),
+                          ("jump", lambda i: 1e8 if i < 300 else 1e-8 * (1 + i % 3))):
+            n = 600 if quick else 20000
+            t = SlidingWindowTracker(k)
+            vals = []
+            worst = None
+            for i in range(n):
+                v = gen(i)
+                vals.append(v)
+                t.update(v)
+                if i % 7 == 0 or i == n - 1:
+                    win = vals[-k:]
+                    exact = sum(F(w) for w in win) / len(win)
+                    err = abs(F(float(t.mean)) - exact)
+                    bound = F(16 * len(win) * eps * max(abs(w) for w in win))
+                    if err > bound and worst is None:
+                        worst = (i + 1, float(t.mean), float(exact), float(bound))
+            nsw += 1
+            ctx.count_clause("float.sliding_window_mean")
+            if worst:
+                ctx.violation("float.sliding_window_mean", "k=%d stream=%s" % (k, name), "after %d values the reported mean %r differs from "
+                              "the exact mean of the window %r by more than 16*k*eps*max|v| = %.3g" % worst, {"k": k, "stream": name})
+    ctx.add_stage("SlidingWindowTracker mean on spike / offset / jump streams against the exact window mean", "float_twin", runs=nsw)
     ctx.assume("claimed at reduced scope: kappa-ill-conditioned streams of n <= 32 values, magnitudes 2^-28..2^27, five orderings; the "
                "growth of the error over 10^4..10^6 values is not evaluated (TLC has no floats and 32-bit integers)")
     ctx.assume("C = 8 against a measured worst case of 0.25 (Welford) / 0.67 (smoothing) units")
